@@ -177,11 +177,12 @@ def one_run(world_name: str, prop: str, tier: str, seed: int, index: int, batch_
 
 def count_faults(schedule) -> int:
     n = 0
+    real = lambda fs: sum(1 for f in fs if not f.startswith("probe"))  # noqa: E731
     for op in schedule.get("ops", []):
-        n += len(op.get("faults", []))
+        n += real(op.get("faults", []))
         for r in op.get("readings", []) or []:
-            n += len(r.get("faults", []))
-    return n + len(schedule.get("faults", []))
+            n += real(r.get("faults", []))
+    return n + real(schedule.get("faults", []))
 
 
 def _chunk_worker(args):
